@@ -39,8 +39,19 @@ def run():
              f"one per branch; parent as in (2) with every commit dated after its parents and after the component "
              f"build it pins (15 % of them up to one day before it: clock skew inside the window), parent lines "
              f"following different component branches. "
+             f"(4) {b.notes.get('multi_cases')} seeded histories of an owner repository pinning 2 (75 %) or 3 "
+             f"components (repository names sorting before and after the owner's; declared by the owner, listed "
+             f"in the pins file and supplied to ReposCollection in any order): every component drawn as in (2) "
+             f"(70 % of the cases, all times within one day) or as in (3) (30 %, dates spread), or - with "
+             f"probability 0.45 for every component after the first - an identically shaped copy of an earlier "
+             f"one (another repository with the same commit graph, built and matching commits; other name, build "
+             f"numbers shifted by 0-4), the components' release numbers equal (40 %) or distinct; owner as in "
+             f"(2)/(3) with one pin per component in every commit, each pin monotone on its own, each pin "
+             f"staying with probability 0.5-0.85 per commit (builds moving one pin, several pins or none); the "
+             f"clauses are demanded for every component separately. "
              f"non-trivial = (1) >= 2 repositories with a dependency between supplied ones, "
-             f"(2) the parent's builds pin >= 2 distinct component builds",
+             f"(2), (3) the parent's builds pin >= 2 distinct component builds, (4) the same for some component "
+             f"and >= 2 components have a report-related build first shipped by some owner build",
         exhaustive=False,
         extra={'exhaustive_part': 'repo_order over <= 4 repositories', 'counts': dict(b.notes)})
     cov.update(ppart)
@@ -72,4 +83,9 @@ def run():
                    "in the generated histories dates also grow along ancestry within a repository",
                    "one build tag per parent commit, distinct build numbers (included_at identifies parent builds by "
                    "branch and number)",
-                   "bounded: <= 4 repositories for ordering; component <= 8 commits, parent <= 10 commits"], t0)
+                   "an owner of several components: the components are leaves (no components of their own), every "
+                   "owner commit pins every component, and the pre-conditions above hold for every (owner, component) "
+                   "pair; what is demanded for the builds of one component depends on the owner's pins of that "
+                   "component only",
+                   "bounded: <= 4 repositories for ordering; component <= 8 commits, parent <= 10 commits, "
+                   "<= 3 components per owner"], t0)
